@@ -196,7 +196,7 @@ def run(R):
             if bad <= 3:
                 R.violation("rustdoc stage: " + why, {"item": name, "spec": spec, "attrs": attrs})
     info.update(checked=len(meta), failures=bad)
-    # the combination the documentation forbids must not compile (fix 1d4794f)
+    # the combination the documentation forbids must not compile (fix 75c77be)
     crate2 = os.path.join(STAGE, "route_without_method")
     write_crate(crate2, "c19_route_without_method", '#[pavex::route(path = "/x")]\npub fn h() -> u64 { 0 }\n')
     with pxvlib.BuildLock("cargo"):
